@@ -65,10 +65,15 @@ class Concretiser:
         """abstract hint record -> (json value, {port-identity: h})"""
         if h["type"] == "nonobj":
             return [7, "direct-tcp-v1", None, [1, 2]][self.variant % 4], {}
-        self.n += 1
-        ident = self.n
-        out = {}
         t = h["type"]
+        if t == "relay-v1":
+            ident = 0
+        elif h.get("twin") and getattr(self, "last_tcp", 0):
+            ident = self.last_tcp          # (a twin names the same endpoint as the TCP-style hint before it: same identity, same values)
+        else:
+            self.n += 1
+            ident = self.last_tcp = self.n
+        out = {}
         if t == "nonstr":
             # not a string: a number, an (unhashable) array or object, null, a boolean
             out["type"] = [7, ["direct-tcp-v1"], {}, None, True, 2.5, {"type": "direct-tcp-v1"}, []][(self.variant * 3 + self.n) % 8]
@@ -82,7 +87,8 @@ class Concretiser:
                 for s in h["sub"]:
                     j, i2 = self.hint(s)
                     subs.append(j)
-                    ids.update(i2)
+                    for k_, v_ in i2.items():
+                        ids.setdefault(k_, []).extend(v_)
                 out["hints"] = subs
             elif sk != "missing":
                 out["hints"] = {"null": None, "int": 5, "str": "abc", "dict": {"x": 1}}[sk]
@@ -92,9 +98,9 @@ class Concretiser:
             if k != "missing":
                 out[field] = kind_value(k, self.variant, ident, field)
         if h["port"] in ("int",) and h["hostname"] == "str":
-            ids[out["port"]] = h
+            ids[out["port"]] = [h]
         elif h["port"] == "bool" and h["hostname"] == "str":
-            ids[int(out["port"])] = h
+            ids[int(out["port"])] = [h]
         return out, ids
 
 
@@ -106,8 +112,8 @@ def expected_ports(case_hints, concrete_ids, dialset):
     """ports that correspond to abstract hints in `dialset` (a set of frozen (hint, viaRelay) pairs)"""
     want = set()
     frozen = {freeze_hint(d[0]) for d in dialset}
-    for port, h in concrete_ids.items():
-        if freeze_hint(h) in frozen:
+    for port, hs in concrete_ids.items():
+        if any(freeze_hint(h) in frozen for h in hs):
             want.add(port)
     return want
 
@@ -279,7 +285,8 @@ def run(prop, tier):
                 for h in case:
                     j, i2 = conc.hint(h)
                     hints.append(j)
-                    ids.update(i2)
+                    for k_, v_ in i2.items():
+                        ids.setdefault(k_, []).extend(v_)
                 mstate = "CONNECTING"
                 if entry == "dilation":
                     # every fourth dilation case meets the Manager in another state (there the hints are not used)
